@@ -468,6 +468,7 @@ impl<'a> SolOut for SimSolOut<'a> {
                         }
                         flag = ControlFlag::ModifiedSolution;
                     }
+                    Action::XOut(xo) => flag = ControlFlag::XOut(*xo),
                 }
                 break;
             }
